@@ -25,13 +25,40 @@ package ext
 //@   top-ensures old(rs.contentLength) >= 0 ==> rs.reader.pos >= old(rs.reader.pos) && rs.reader.pos - old(rs.reader.pos) <= old(rs.contentLength - rs.offset)
 //@   ensures old(rs.contentLength) >= 0 ==> 0 <= n && n <= len(p)
 
-// Used at call sites only (not yet verified against its body): reading the trailer section touches the
-// reader and the trailer object.
-//@ func ReadTrailer(t, r) err
+// Reading or skipping the trailer section touches the reader and the trailer object; both are panic-free under
+// the reader model (the explicit panics of MustPeekBuffered / MustDiscard are proved unreachable at these calls).
+//@ func MustPeekBuffered(r) b
+//@   props C03
+//@   requires r != nil && r.avail >= 1
+//@   modifies r.avail, r.failed
+//@   ensures len(b) >= 1 && len(b) <= r.avail
+
+//@ func MustDiscard(r, n)
+//@   props C03
+//@   requires r != nil && 0 <= n && n <= r.avail
+//@   modifies r.pos, r.avail
+
+//@ func tryReadTrailer(t, r, n) err
+//@   props C03
+//@   requires r != nil && t != nil
 //@   modifies t._all, alltype(protocol.argsKV), r.pos, r.avail, r.failed, mem
 //@   allocates
 
+//@ func ReadTrailer(t, r) err
+//@   props C03
+//@   requires r != nil && t != nil
+//@   modifies t._all, alltype(protocol.argsKV), r.pos, r.avail, r.failed, mem
+//@   allocates
+
+//@ func trySkipTrailer(r, n) err
+//@   props C03
+//@   requires r != nil
+//@   modifies r.pos, r.avail, r.failed, mem
+//@   allocates
+
 //@ func SkipTrailer(r) err
+//@   props C03
+//@   requires r != nil
 //@   modifies r.pos, r.avail, r.failed, mem
 //@   allocates
 
@@ -165,6 +192,7 @@ package ext
 //@   requires hsInv(s)
 //@   modifies s._all, mem
 //@   ensures r ==> hsInv(s)
+//@   ensures r ==> sameArray(s.Key, s.B) && sameArray(s.Value, s.B)
 //@   ensures s.HLen + len(s.B) == old(s.HLen + len(s.B))
 //@   unreachable-return 6 :: the length check after the continuation-line loop is defensive: n is the index of a line feed inside the window on every path into it
 //@   assert after normalizeHeaderValue#0: off(result1) == off(s.B) && len(result1) == len(s.B)
@@ -178,3 +206,50 @@ package ext
 //@     invariant 0 <= n && n < len(s.B) && s.nextColon < 0 && s.nextNewLine < 0 && s.nextNewLine >= -1 - s.HLen && s.B[n] == '\n'
 //@   loop 2:
 //@     invariant 0 <= n && n <= len(s.Value) && forall(k, n, len(s.Value), s.Value[k] != '\n')
+
+// ---- C03: the remaining small parsers of this package are panic-free for every input ----
+//@ func ReadRawHeaders(dst, buf) r, n, err
+//@   props C03
+//@   allocates
+//@   modifies spare(dst)
+//@   ensures 0 <= n && n <= len(buf)
+//@   loop 0:
+//@     invariant 0 <= m && m <= len(b) && sameArray(b, buf) && off(b) >= off(buf) && off(b) + len(b) == off(buf) + len(buf) && off(b) - off(buf) + m == n
+
+//@ func isOnlyCRLF(b) r
+//@   props C03
+
+//@ func BufferSnippet(b) r
+//@   props C03
+//@   allocates
+
+//@ func stripSpace(b) r
+//@   props C03
+//@   ensures within(r, b)
+//@   loop 0:
+//@     invariant within(b, old(b))
+//@   loop 1:
+//@     invariant within(b, old(b))
+
+//@ func skipTrailer(buf) n, err
+//@   props C03
+//@   ensures err == nil ==> 0 <= n && n <= len(buf)
+//@   loop 0:
+//@     invariant 0 <= skip && skip + len(buf) == len(old(buf))
+
+//@ func HeaderValueScanner.next(s) r
+//@   props C03
+//@   modifies s.B, s.Value
+
+//@ func HasHeaderValue(s, value) r
+//@   props C03
+
+//@ func parseTrailer(t, buf) n, err
+//@   props C03
+//@   requires len(buf) > 0 && t != nil
+//@   modifies t._all, alltype(protocol.argsKV), mem
+//@   allocates
+//@   ensures err == nil ==> 0 <= n && n <= len(buf)
+//@   loop 0:
+//@     invariant hsInv(s) && s.HLen + len(s.B) <= len(old(buf))
+
